@@ -136,13 +136,19 @@ Fixpoint brun (K : cfg) (b : bstate) (ms : list bmsg) : bstate * list reply :=
 
 (** * Server::recv on a reply stream: '1' pops the registering queue; 'E' drains it and removes
     every drained name from the LRU (the backend skips the rest of the batch; fix f7eb935);
-    CommandComplete "DEALLOCATE ALL"/"DISCARD ALL" clears the LRU (fix b2fb22f). *)
+    CommandComplete "DEALLOCATE ALL"/"DISCARD ALL" clears the LRU (fix b2fb22f) except for the
+    names registered behind it in the same batch (fix fc66d7a). *)
 Fixpoint recv (K : cfg) (l q : list nat) (rs : list reply) : list nat * list nat :=
   match rs with
   | [] => (l, q)
   | R1 :: r => recv K l (tl q) r
   | RErr :: r => recv K (fold_left (fun a x => remove_nat x a) q l) [] r
-  | RRow st :: r => match kind K st with DeallocAll => recv K [] q r | _ => recv K l q r end
+  | RRow st :: r =>
+    match kind K st with
+    | DeallocAll =>   (* cache.clear(), then the names still being registered are pushed back (fix fc66d7a) *)
+      recv K (fold_left (fun a x => if mem x a then touch a x else fst (push (cs K) a x)) q []) q r
+    | _ => recv K l q r
+    end
   | _ :: r => recv K l q r
   end.
 
@@ -171,15 +177,17 @@ Definition pool_get_or_insert (K : cfg) (w : world) (st : nat) : world * (nat * 
 (** * Server::register_prepared_statement(parse, should_send) (server.rs:1167-1214).
     Returns the server and whether the statement is in its cache afterwards. *)
 Definition register (K : cfg) (sv : server) (g st : nat) (should_send : bool) : server * bool :=
-  if mem g (lru sv) then (mkServer (touch (lru sv) g) (queue sv) (btab sv) (slog sv), true)   (* 1172 and 1209: two hits *)
+  if mem g (lru sv) then (mkServer (touch (lru sv) g) (queue sv) (btab sv) (slog sv), true)   (* two cache hits *)
   else
-    let q := queue sv ++ [g] in
     let '(l, ev) := push (cs K) (lru sv) g in
     (* the Close of the evicted statement goes first (fix 43119ca): a failing Parse cannot make the backend skip it *)
     let ms := (match ev with Some e => [BClose e] | None => [] end) ++ (if should_send then [BParse g st] else []) in
-    let sv1 := mkServer l q (btab sv) (slog sv) in
+    (* the out-of-band exchange answers only for its own statement (fix d9d0e8b): the names registered for
+       the batch that is still being assembled are set aside while it runs *)
+    let sv1 := mkServer l (if should_send then [g] else []) (btab sv) (slog sv) in
     let sv2 := match ms with [] => sv1 | _ => fst (exchange K sv1 ms) end in
-    (mkServer (touch (lru sv2) g) (queue sv2) (btab sv2) (slog sv2), mem g (lru sv2)).
+    let q := queue sv ++ (if should_send then [] else [g]) in      (* the client's own Parse follows with its batch *)
+    (mkServer (touch (lru sv2) g) q (btab sv2) (slog sv2), mem g (lru sv2)).
 
 (** * The 'S' arm: one pass over the buffered items.
     [acc] = (client map, server, pool lru, forwarded messages, synthesised replies). *)
